@@ -131,6 +131,8 @@ def run(ctx):
     # language features outside the model (classes, inheritance, import aliases, ...): real dds against plain execution only
     from . import c01x
     c01x.run_extended(ctx, res, thorough)
+    # the top-level entry points called with arguments, for every kind of parameter list (public API only)
+    c01x.run_toplevel_entry(ctx, res, "values")
     # which names of a function body are module names at all (nested scopes): implementation, model and CPython's symbol table
     from . import c01s
     c01s.run_scope(ctx, res, thorough)
